@@ -825,6 +825,15 @@ impl<'a> Gen<'a> {
                     ("Buy".into(), vec![("price".into(), Ty::Int)]),
                     ("Sell".into(), vec![("price".into(), Ty::Int), ("memo".into(), Ty::Bytes)]),
                     ("Cancel".into(), vec![]),
+                    // cases beyond the seventh: Plutus constructor tags leave the compact range 121..127
+                    ("Hold".into(), vec![("until".into(), Ty::Int)]),
+                    ("Bid".into(), vec![("price".into(), Ty::Int)]),
+                    ("Ask".into(), vec![("price".into(), Ty::Int)]),
+                    ("Pause".into(), vec![]),
+                    ("Settle".into(), vec![("amount".into(), Ty::Int)]),
+                    ("Close".into(), vec![]),
+                    ("Audit".into(), vec![("memo".into(), Ty::Bytes)]),
+                    ("Expire".into(), vec![("at".into(), Ty::Int)]),
                 ],
             });
         }
